@@ -391,7 +391,7 @@ def switch_after_call(b, bi):
     d = t["d"]["l"]
     cur = t["t"]
     val = {d}
-    for _ in range(5):
+    for _ in range(9):
         if cur is None:
             return None
         blk = b.blocks[cur]
@@ -410,6 +410,13 @@ def switch_after_call(b, bi):
         if tt["k"] == "goto":
             cur = tt["t"]
             continue
+        # adaptors that keep the variant (`.get(i).copied().ok_or(E)?`)
+        if tt["k"] == "call" and tt["t"] is not None and tt["args"] and tt["args"][0]["k"] != "const" and tt["args"][0]["p"]["l"] in val and not tt["d"]["pr"]:
+            cn = callee_names(tt)
+            if cn and cn[0].rsplit("::", 1)[-1] in ("copied", "cloned", "as_ref", "as_mut", "as_deref", "map", "map_err", "inspect"):
+                val = val | {tt["d"]["l"]}
+                cur = tt["t"]
+                continue
         return None
     return None
 
